@@ -113,6 +113,6 @@ def real_cases(ctx):
     return real.scenarios(max_procs=3, min_procs=2, max_jobs=5, token_pct=30, fail_pct=10)
 
 
-PARTS.append(Part("real", prop_real, strategy=real_cases, quick=16, thorough=240, shrink_budget=5))
+PARTS.append(Part("real", prop_real, strategy=real_cases, quick=16, thorough=240, shrink_budget=5, collect=True))
 MIN_CLASSES["quick"]["real:job-submitted-by-two-processes"] = 8
 TIMEOUT = {"quick": 900, "thorough": 5400}
